@@ -38,6 +38,8 @@ type aResult struct {
 	Transitions int64  `json:"transitions"`
 	Deviations  int64  `json:"deviation_branches"`
 	Unstored    int64  `json:"budget0_states_walked_without_caching"`
+	Redeliv     int64  `json:"redelivery_branches"`
+	RedelivEff  int64  `json:"redelivery_branches_that_changed_the_receiver"`
 	Outcomes    int    `json:"distinct_outcomes"`
 	Seconds     float64
 }
@@ -53,6 +55,7 @@ type entry struct {
 	res                aResult
 	outcomes           map[string]int64
 	sims, calls, nodes int64
+	reNoop, reEff      int64
 }
 
 var (
@@ -99,8 +102,9 @@ func searchFrom(r *ev.Run, c *cfg, what string, mk func(s *searcher) (gstate, []
 		}
 		entries[key] = &entry{
 			res: aResult{Config: key, K: done, Executions: last.leaves.Load(), States: last.states.Load(), MachTuples: last.tupleCount(),
-				Transitions: last.transitions.Load(), Deviations: last.devsTaken.Load(), Unstored: last.unstored.Load(), Outcomes: len(last.outcomes), Seconds: lastDur.Seconds()},
+				Transitions: last.transitions.Load(), Deviations: last.devsTaken.Load(), Unstored: last.unstored.Load(), Redeliv: last.redeliv.Load(), RedelivEff: last.redelivEff.Load(), Outcomes: len(last.outcomes), Seconds: lastDur.Seconds()},
 			outcomes: last.outcomes, sims: c.sims.Load(), calls: c.calls.Load(), nodes: c.nodes.Load(),
+			reNoop: c.reNoop.Load(), reEff: c.reEff.Load(),
 		}
 	}
 	c.roots, c.canon = nil, nil // release the memo DAG of this configuration
@@ -120,7 +124,7 @@ func TestCheck(t *testing.T) {
 		"parts A and B: single height (0), a validator that emitted Commit receives nothing further; part A2: two heights, the next height is started at once after a commit, messages of the height left are dropped for that validator",
 		"part A3: voting power is a function of the height (heights 0 and 1); in every generated configuration the Byzantine validator holds at most f = max{f: 3f < N} at both heights",
 		"messages of rounds above the round bound are not delivered; nothing is claimed beyond the completed k, the round bound and the prefix catalogue",
-		"duplicate delivery and stale timeouts are not separate deviations: each is verified to be a no-op on the real machine (every memo miss / when it becomes stale)",
+		"re-delivery of an already delivered message (deviation R) is offered at class boundaries, for every message in the receiver's delivery record; an immediate second delivery is additionally verified to be a no-op at every memo miss; stale timeouts are not separate deviations: each is verified to be a no-op on the real machine when it becomes stale",
 		"Byzantine alphabet: nil, each correct proposer's value, one valid Byzantine-only value, one invalid value (if it can propose); any valid-round; any non-empty receiver subset",
 	)
 
@@ -238,8 +242,15 @@ func TestCheck(t *testing.T) {
 		}, kmin, kmax)
 	}
 	for _, sc := range scenarios() {
+		if f := os.Getenv("VERIF_C12_SCEN"); f != "" && !strings.HasPrefix(sc.name, f) { // development aid
+			continue
+		}
 		if want("B") {
-			runScenario(sc, 0, kB)
+			k := kB
+			if os.Getenv("VERIF_C12_KB") == "" {
+				k = max(kB, ev.Pick(r, 0, sc.kT)) // a scenario may state a deeper base level for the thorough tier
+			}
+			runScenario(sc, 0, k)
 		}
 	}
 
@@ -263,13 +274,13 @@ func TestCheck(t *testing.T) {
 			if sc.name == "" {
 				continue
 			}
-			runScenario(sc, 3, 3)
+			runScenario(sc, max(3, sc.kT+1), max(3, sc.kT+1))
 		}
 		searchFrom(r, aCfg(2), "A", fromStart, 4, 4)
 		searchFrom(r, aCfg(1), "A", fromStart, 4, 4)
 		for _, sc := range scs[2:] {
 			if sc.name != "" {
-				runScenario(sc, 3, 3)
+				runScenario(sc, max(3, sc.kT+1), max(3, sc.kT+1))
 			}
 		}
 	}
@@ -289,6 +300,10 @@ func TestCheck(t *testing.T) {
 		r.Add("real_simulations_memo_misses", e.sims)
 		r.Add("real_process_calls", e.calls)
 		r.Add("distinct_validator_states", e.nodes)
+		r.Add("redelivery_branches", e.res.Redeliv)
+		r.Add("redelivery_branches_that_changed_the_receiver", e.res.RedelivEff)
+		r.Add("redelivery_pairs_(validator_state,delivered_message)_run_on_real_machine_noop", e.reNoop)
+		r.Add("redelivery_pairs_(validator_state,delivered_message)_run_on_real_machine_effective", e.reEff)
 		for l, n := range e.outcomes {
 			outcomes[l] += n
 		}
@@ -315,7 +330,7 @@ func TestCheck(t *testing.T) {
 	}
 	r.Set("execution_outcomes", hist)
 	r.Set("distinct_nontrivial", int64(len(ls)))
-	r.Set("rule", "every schedule with <= k deviations (withhold / Byzantine multicast / early timeout / late delivery) from the benign phase-by-phase schedule, k iterated; outcome = multiset of decisions (value@round), number undecided, highest round entered")
+	r.Set("rule", "every schedule with <= k deviations (withhold / Byzantine multicast / early timeout / late delivery / re-delivery of an already delivered message) from the benign phase-by-phase schedule, k iterated; outcome = multiset of decisions (value@round), number undecided, highest round entered")
 	for i, x := range results {
 		if i < 6 {
 			r.Sample(x)
